@@ -1267,7 +1267,10 @@ class UBCalculation:
         else:
             rotation_axis = rotation_axis / norm(rotation_axis)
             cos_rotation_angle = bound(
-                float(dot3(self.surf_nphi, surf_rot) / norm(surf_rot))
+                float(
+                    dot3(self.surf_nphi, surf_rot)
+                    / (norm(self.surf_nphi) * norm(surf_rot))
+                )
             )
             rotation_angle = acos(cos_rotation_angle)
         return degrees(rotation_angle), rotation_axis
